@@ -189,11 +189,17 @@ AUX = os.path.join(VERIF, "aux")
 def _aux_build_run(name, std, cxx="g++", extra=("-O1", "-fsanitize=address", "-DNDEBUG"), args=()):
     """Compile aux/<name>.cpp against /repo's header (cached by tree key) and run it.
     Returns (compiled_ok, compiler_output, run_rc, run_stdout)."""
+    # a std of the form "20nx" means: that standard, compiled with -fno-exceptions (the header's
+    # GCH_EXCEPTIONS-off branches: its TRY/CATCH macros become if/else and failures terminate)
+    tag = std
+    if std.endswith("nx"):
+        std = std[:-2]
+        extra = tuple(extra) + ("-fno-exceptions",)
     key = B.tree_key()
     h = hashlib.sha256(open(os.path.join(AUX, name + ".cpp"), "rb").read()).hexdigest()[:10]
     bdir = os.path.join(B.CACHE, "k-" + key, "aux")
     os.makedirs(bdir, exist_ok=True)
-    exe = os.path.join(bdir, "%s-%s-%s-%s" % (name, cxx.replace("+", "x"), std, h))
+    exe = os.path.join(bdir, "%s-%s-%s-%s" % (name, cxx.replace("+", "x"), tag, h))
     log = exe + ".log"
     if not os.path.exists(exe):
         cmd = [cxx, "-std=c++" + std, "-w"] + list(extra) + ["-I" + B.include_dir(),
@@ -300,7 +306,9 @@ def aux_prebuild():
     from concurrent.futures import ThreadPoolExecutor
     jobs = [(n, std) for n in ("conv_grid", "archetypes", "noexcept_table") for std in ("11", "17", "20")]
     jobs += [("max_grid", "20"), ("cmp_grid", "17"), ("cmp_grid", "20"), ("real_types", "11"), ("real_types", "20"),
-             ("noexcept_table", "14"), ("huge_capacity", "20")]
+             ("noexcept_table", "14"), ("huge_capacity", "20"),
+             ("real_types", "20nx"), ("conv_grid", "20nx"), ("archetypes", "20nx"),
+             ("iter_grid", "11"), ("iter_grid", "20")]
     with ThreadPoolExecutor(max_workers=9) as ex:
         list(ex.map(lambda j: _aux_build_run(j[0], j[1]), jobs))
 
@@ -401,7 +409,12 @@ def c18(prop, tier, seed, known):
                    "MISMATCH", "noexcept.table", "noexcept.table_compile", "ROWS",
                    ("g++",) if q else ("g++", "clang++"))
     # a table that does not compile is a machinery problem unless a declaration disappeared
-    return dict(coverage=dict(noexcept_table=c, extra_evaluations=c["cases"]), violations=v)
+    # iterator contract: every operator of iterator / const_iterator against pointer arithmetic
+    v2, c2 = run_aux(prop, "iter_grid", ["11", "20"] if q else ["11", "14", "17", "20", "2b"],
+                     "ITERFAIL", "noexcept.iterator_contract", "noexcept.iterator_contract_compile", "ITER",
+                     ("g++",) if q else ("g++", "clang++"))
+    return dict(coverage=dict(noexcept_table=c, iterator_grid=c2, extra_evaluations=c["cases"] + c2["cases"]),
+                violations=v + v2)
 
 
 SPECIALS["C18"] = c18
@@ -599,11 +612,12 @@ def c01(prop, tier, seed, known):
     pointer / arithmetic / enum elements built from converting ranges, and the minimal-requirement
     archetypes (values compared with std::vector driven by the same calls)."""
     q = tier == "quick"
-    stds = ["11", "17", "20"] if q else ["11", "14", "17", "20", "2b"]
+    # "NNnx": the same programs built with -fno-exceptions (none of them needs an exception)
+    stds = ["11", "17", "20", "20nx"] if q else ["11", "14", "17", "20", "2b", "11nx", "20nx"]
     v1, c1 = run_aux(prop, "conv_grid", stds, "CONVFAIL", "model.conv_value", "model.conv_compile", "CONV")
     v2, c2 = run_aux(prop, "archetypes", stds, "ARCHFAIL", "model.arch_value", "model.arch_compile", "ARCH")
     # seeded lock-step histories over real-world element types (std::string, unique_ptr, shared_ptr, ...)
-    v3, c3 = run_aux(prop, "real_types", ["11", "20"] if q else ["11", "17", "20"], "REALFAIL", "model.real_types",
+    v3, c3 = run_aux(prop, "real_types", ["11", "20", "20nx"] if q else ["11", "17", "20", "11nx", "20nx"], "REALFAIL", "model.real_types",
                      "model.real_types_compile", "REAL", args=(seed, 4000 if q else 40000))
     return dict(coverage=dict(conversion_grid=c1, archetypes=c2, real_element_types=c3,
                               extra_evaluations=c1["cases"] + c2["cases"] + c3["cases"]),
